@@ -438,7 +438,7 @@ import (
 var _ = big.NewInt
 var _ = bytes.Equal
 
-func TestGovcReplay(t *testing.T) {
+func TestGovcReplay(govcT *testing.T) {
 %s%s	var panicked interface{}
 	func() {
 		defer func() { panicked = recover() }()
@@ -657,13 +657,12 @@ func (c *goExprGen) gen(e *Expr) (string, string, bool) {
 		if _, ok := replaySpecFuncs[e.Name]; ok {
 			var as []string
 			for _, a := range e.Args {
-				code, kind, ok := c.genRaw(a)
+				code, kind, ok := c.gen(a)
+				if !ok || kind == "raw" {
+					code, kind, ok = c.genRaw(a)
+				}
 				if !ok {
 					return "", "", false
-				}
-				if kind == "int" {
-					code2, _, _ := c.gen(a)
-					code = code2
 				}
 				as = append(as, code)
 			}
@@ -689,6 +688,9 @@ func (c *goExprGen) gen(e *Expr) (string, string, bool) {
 		}
 		t := c.typeOfRaw(e.Args[0])
 		if t != nil {
+			if pt, ok := t.Underlying().(*types.Pointer); ok {
+				t = pt.Elem()
+			}
 			if st, ok := t.Underlying().(*types.Struct); ok {
 				for i := 0; i < st.NumFields(); i++ {
 					if st.Field(i).Name() == e.Name {
@@ -773,6 +775,9 @@ func (c *goExprGen) typeOfRaw(e *Expr) types.Type {
 		}
 	case "sel":
 		if t := c.typeOfRaw(e.Args[0]); t != nil {
+			if pt, ok := t.Underlying().(*types.Pointer); ok {
+				t = pt.Elem()
+			}
 			if st, ok := t.Underlying().(*types.Struct); ok {
 				for i := 0; i < st.NumFields(); i++ {
 					if st.Field(i).Name() == e.Name {
@@ -810,7 +815,7 @@ func (c *goExprGen) wrapVal(code string, t types.Type) (string, string, bool) {
 }
 
 // Go transcriptions of the spec functions of /verif/specs/*.smt2 used by replay oracles.
-var replaySpecFuncs = map[string]string{"SumW": "int", "SumMW": "int", "Fz": "int", "Qz": "int", "SW": "int"}
+var replaySpecFuncs = map[string]string{"SumW": "int", "SumMW": "int", "Fz": "int", "Qz": "int", "SW": "int", "Tspec": "int"}
 
 const replaySpecLib = `
 func bigS(s string) *big.Int { n, _ := new(big.Int).SetString(s, 10); return n }
@@ -819,6 +824,13 @@ func bigMod(a, b *big.Int) *big.Int { _, m := new(big.Int).DivMod(a, b, new(big.
 func spec_Fz(w *big.Int) *big.Int {
 	if w.Sign() <= 0 { return big.NewInt(0) }
 	return bigDiv(new(big.Int).Sub(w, big.NewInt(1)), big.NewInt(3))
+}
+func spec_Tspec(m, v *big.Int) *big.Int {
+	max := bigS("9223372036854775807")
+	if v.Cmp(big.NewInt(63)) >= 0 { return max }
+	p := new(big.Int).Lsh(m, uint(v.Uint64()))
+	if p.Cmp(max) > 0 { return max }
+	return p
 }
 func spec_Qz(w *big.Int) *big.Int {
 	if w.Sign() <= 0 { return big.NewInt(1) }
